@@ -7,6 +7,7 @@ call bracketed by a canonical deep snapshot (purity including generator state an
 import contextlib
 import hashlib
 import io
+import time
 import json
 import os
 import shutil
@@ -159,8 +160,19 @@ def main(run: Run, audit):
     cfgs = configs(run.tier, run.seed)
     vs = variants(run.tier)
     jobs = [(c, v, run.tmp) for c in cfgs for v in vs]
-    with Pool(16) as pool:
-        res = pool.map(one_run, [j if not j[1].get('pool_real') else None for j in jobs], chunksize=1)
+    # under a watchdog: a run() that never returns (a variant may drive the sampler out of the unit cube) must end in a verdict
+    pool = Pool(16)
+    todo = [j if not j[1].get('pool_real') else None for j in jobs]
+    asyncs = [pool.apply_async(one_run, (j,)) for j in todo]
+    t_end = time.time() + (1500 if run.tier == 'quick' else 7200)
+    res = []
+    for j, a in zip(todo, asyncs):
+        try:
+            res.append(a.get(timeout=max(1.0, t_end - time.time())))
+        except Exception as e:     # noqa  (multiprocessing.TimeoutError or a worker crash)
+            res.append(dict(variant=j[1], fails=['run() did not return (%s): it spins or hangs' % type(e).__name__], accessor_calls=0, hung=True) if j is not None else None)
+    pool.terminate()
+    pool.join()
     # a sampler that creates a real multiprocessing pool cannot run inside a daemonic worker: these run here
     res = [r if r is not None else one_run(j) for r, j in zip(res, jobs)]
     fails, broken = [], []
@@ -177,6 +189,8 @@ def main(run: Run, audit):
             n_acc += r['accessor_calls']
             for f in r['fails']:
                 fails.append((c, r['variant'], f))
+            if r.get('hung'):
+                continue
             if r.get('failclosed'):
                 broken.append('%s' % r['failclosed'])
             if r is ref or 'fp' not in ref:
